@@ -519,11 +519,16 @@ func (b *book) dflt(t *gty) string {
 // ---------------------------------------------------------------------------------------------
 
 type bvar struct {
-	slice bool // a local slice taken from another slice or field: shares its backing array in Go
-	ty    *gty
-	alias ast.Expr // Go lvalue this local is an alias of (reference semantics)
-	bound bool     // for aliases: a Lean binding with the current value exists
-	root  bool     // receiver or pointer parameter (mutations are returned)
+	// `x := a - b` (Go ints may go negative, the translation's naturals truncate): the operands and the number
+	// of assignments made when x was defined, so that `x < 0` / `x >= 0` can be decided as `a < b` / `b ≤ a`
+	// as long as nothing was assigned in between
+	subA, subB ast.Expr
+	subSeq     int
+	slice      bool // a local slice taken from another slice or field: shares its backing array in Go
+	ty         *gty
+	alias      ast.Expr // Go lvalue this local is an alias of (reference semantics)
+	bound      bool     // for aliases: a Lean binding with the current value exists
+	root       bool     // receiver or pointer parameter (mutations are returned)
 	// a local slice `x := base[lo:]` over a field path: element writes through x go to base[lo+i], and
 	// the Lean value of x is re-read from base after every write to base's elements
 	view   ast.Expr
@@ -532,6 +537,7 @@ type bvar struct {
 }
 
 type bctx struct {
+	seq      int // number of assignments/definitions emitted so far (see bvar.subSeq)
 	b        *book
 	where    string
 	vars     map[string]*bvar
@@ -802,6 +808,9 @@ func (c *bctx) expr(e ast.Expr) (string, *gty) {
 		case token.NEQ:
 			return "(" + ls + " != " + rs + ")", tyBool
 		case token.LSS:
+			if a, b, ok := c.signOf(x.X, x.Y); ok { // (a - b) < 0  ⟺  a < b
+				return "(decide (" + a + " < " + b + "))", tyBool
+			}
 			return "(decide (" + ls + " < " + rs + "))", tyBool
 		case token.LEQ:
 			return "(decide (" + ls + " ≤ " + rs + "))", tyBool
@@ -1030,6 +1039,7 @@ func (c *bctx) read(path ast.Expr) (string, *gty) { return c.expr(path) }
 
 // setPath emits the lets that store `v` at the (resolved) path
 func (c *bctx) setPath(path ast.Expr, v string, out *strings.Builder, ind string) {
+	c.seq++
 	c.setPath0(path, v, out, ind)
 	c.viewsAfterWrite(path, out, ind)
 }
@@ -1233,6 +1243,26 @@ func (c *bctx) markAssigned(names []string) {
 }
 
 // define a new local
+// signOf: `x OP 0` where x was defined as `a - b` and nothing was assigned since: the operands, re-translated
+func (c *bctx) signOf(l, r ast.Expr) (string, string, bool) {
+	if lit, ok := r.(*ast.BasicLit); !ok || lit.Value != "0" {
+		return "", "", false
+	}
+	id, ok := l.(*ast.Ident)
+	if !ok {
+		return "", "", false
+	}
+	v, ok := c.vars[id.Name]
+	if !ok || v.subA == nil || v.subSeq != c.seq {
+		return "", "", false
+	}
+	saveUnder := c.under
+	a, _ := c.expr(v.subA)
+	b, _ := c.expr(v.subB)
+	c.under = saveUnder
+	return a, b, true
+}
+
 // refreshView re-reads the Lean value of the local slice `name` from the slice it is a view of
 func (c *bctx) refreshView(name string, out *strings.Builder, ind string, reassigned bool) {
 	v := c.vars[name]
@@ -1271,6 +1301,14 @@ func (c *bctx) viewsAfterWrite(path ast.Expr, out *strings.Builder, ind string) 
 }
 
 func (c *bctx) define(name string, rhs ast.Expr, out *strings.Builder, ind string) {
+	c.seq++
+	defer func() {
+		if be, ok := rhs.(*ast.BinaryExpr); ok && be.Op == token.SUB {
+			if v, ok := c.vars[name]; ok && v.alias == nil {
+				v.subA, v.subB, v.subSeq = be.X, be.Y, c.seq
+			}
+		}
+	}()
 	if ce, ok := rhs.(*ast.CallExpr); ok && c.bindCall(name, ce, out, ind) {
 		return
 	}
